@@ -5,9 +5,18 @@ GEN = []
 LEAN_TARGETS = ["MagpyVerif.Props.C03"]
 PROPS = ["MagpyVerif.Props.C03"]
 NOT_SHOWN = {
- "03": ["covariance is proved for the pipeline tensor `Model/Level2.tensor` (covariance_end_to_end: sources and Sensors moved together; "
-        "covariance_positions_end_to_end: sources and position observers moved, vectors rotate by Q), i.e. before pixel_agg / sumup / squeeze; "
-        "that those three commute with the rotation is not stated here (sumup and pixel_agg='sum' are sums, min/max do NOT commute with a rotation of the vectors)",
+ "03": ["covariance AFTER the post-processing IS proved (c03post): `covariance_after_postprocessing` -- for any common rigid motion of all source entries and all "
+        "sensors the whole result of getBH_level2 (error exit, shape, every value) is unchanged after pixel_agg with ANY function of the pixel list "
+        "(max / min / median / std included: no property of the reduction is used, because every pixel value is already in its sensor's frame when it is "
+        "aggregated), after sumup and after squeeze, for all pixel shapes (also different per sensor) and either handedness; `..._dataframe` for "
+        "output='dataframe', `..._named` for the sum / min / max instance the integer driver runs, `..._on_driver_carrier` for the M3 Int evaluation. "
+        "Position observers: `covariance_positions_after_postprocessing` -- same shape, every vector rotated by Q after sumup / squeeze; with a pixel_agg "
+        "the reduction has to commute with the rotation (sum, mean), and this hypothesis cannot be dropped (`position_observers_max_not_rotated`). The order in "
+        "the model matters: `aggregate_then_rotate_not_covariant` evaluates the other order (Model/Level2.tensorAggFirst: pixel_agg on the global-frame values, "
+        "then rotation / flip of the aggregate) with max on a two-pixel sensor turned by 180 degrees and gets (1,0,0) instead of (2,0,0). "
+        "NOT shown: that `np.squeeze` / `np.expand_dims` / `reshape` / `np.split` / `pd.DataFrame(product(...))` behave as the shape-list / row-major-data "
+        "model says (assumed, exercised exactly by the level2 stream and with tolerance 1e-9 by the level2f stream); the numpy reductions themselves "
+        "(Model/PixelAgg.lean: as numpy computes them, tied by the level2f stream, nothing proved about them -- the theorems quantify over every reduction)",
         "carrier: the theorems are over an abstract Mathlib `Group G` acting by a `DistribMulAction` on `V`; the driver evaluates the same polymorphic "
         "model at integer matrices (`M3 Int`, inverse = transpose, not a group as a type). PROVED since the octgroup session "
         "(Lemmas/OctaCarrier.lean, Lemmas/OpHom.lean): the orthogonal integer matrices of determinant 1 (`IsOct`, the 24 octahedral rotations, the "
